@@ -384,7 +384,7 @@ for _k, _v in ADDED_B17.items():
 ADDED_B18 = {
     "C01": "Added after the eighteenth batch: C01.30 (= C05.18) the inclusion of two custom formats is a set inclusion of their brands, never a positional comparison.",
     "C02": "Added after the eighteenth batch: C02.25 (= C16.13) no schema() method assigns a field of the printing context; C02.26 the null-branch remover of the post-processing module answers `null` on the bare test `kept.length === all.length` (ObjectRuntype.schema reads any other answer as `nullable` and drops the property from `required`).",
-    "C03": "Added after the eighteenth batch: C03.25 no validate() method assigns or updates a field of its context parameter (parse re-validates every union branch with one context).",
+    "C03": "Added after the eighteenth batch: C03.26 no validate / parseAfterValidation / reportDecodeError method calls a method looked up on the input itself (found and guards fix 56a23a7: an array with an own `map` property made parse return what that function returns; executed under node before and after); C03.25 no validate() method assigns or updates a field of its context parameter (parse re-validates every union branch with one context).",
     "C04": "Added after the eighteenth batch: C04.15 the visitor that discovers the buildParsers call overrides no visit_* method with an empty body.",
     "C05": "Added after the eighteenth batch: C05.18 custom formats compare as brand sets; C05.19 (= C07.19) the converter's Ref arm never answers a reference with an unknown / never constant.",
     "C06": "Added after the eighteenth batch: C06.10 the inclusion test of two template-literal types never answers in a catch-all arm (string-table entries stay nested or disjoint).",
